@@ -5,7 +5,14 @@
          harmless), `sort3` sorts and permutes for all naturals, and exactly which entries `makeW` writes (Mathlib)
    C13c  the closed form IS the surface integral over the unit sphere of ℝ³ (Mathlib measure theory: polar decomposition of the
          Gaussian-weighted monomial): ∫_{S²} x^{2i}y^{2j}z^{2k} dσ = 4π(2i−1)!!(2j−1)!!(2k−1)!!/(2(i+j+k)+1)!!, odd exponents give 0,
-         total mass 4π; hence the model's `Pijk` equals the sphere integral -/
+         total mass 4π; hence the model's `Pijk` equals the sphere integral
+   C13d  EVERY stored entry of the type-1 table W and of the type-2 table Ω of the model is the sphere integral of monomial × S (× S) for
+         the model's own harmonic polynomials S = Σ uklm·x^i y^j z^(λ−i−j) (selection rules of uklm, unwritten entries vanish);
+         the polynomials for λ ≤ 2 are the classical real harmonics and orthonormal
+   C13e  the model's harmonics are homogeneous HARMONIC polynomials of degree λ (zero Laplacian), hence orthogonal to lower-degree
+         monomials - which removes the degree conditions of C13d: the statements hold for every entry within the table limits -/
 import Ecpint.Props.C13a
 import Ecpint.Props.C13b
 import Ecpint.Props.C13c
+import Ecpint.Props.C13d
+import Ecpint.Props.C13e
